@@ -15,7 +15,8 @@ Proof.
   intros IL H. unfold step in H.
   destruct l; cbn [step0] in H; unfold start_shutdown, store_state in H;
     step_cases H; inversion H; subst; clear H; unfold InvLen in *; simp_st;
-    unfold mark_ls_done, mark_mon_done; rewrite ?upd_length, ?map_length; exact IL.
+    unfold mark_ls_done, mark_mon_done; rewrite ?upd_length, ?map_length;
+    first [exact IL | unfold nrun in *; lia].
 Qed.
 
 Lemma InvLen_reachable c s : reachable_sup c s -> InvLen c s.
